@@ -20,4 +20,15 @@ Proof.
   destruct (dbind (add_args (w_params w) args []) (fun q => assert_context (ctx0 sc) q)) as [c|e|x];
     intros [= <- <-]; intros; try discriminate; reflexivity.
 Qed.
+(* non-vacuity: concrete wrappers, arguments and values that meet the hypotheses above *)
+Definition ty0 : ttype := {| t_shape := []; t_mindex := None; t_mname := None; t_anon := false; t_lits := [] |}.
+Definition annA (s:string) (o:bool) : annot :=
+  {| a_ty := match parse_shape s with Ok ty => ty | Err _ => ty0 end; a_dtypes := []; a_opt := o |}.
+Definition tenE (l:list Z) : tensor := {| x_lib := LNumpy; x_dt := KF32; x_shape := l |}.
+Definition arrE (l:list Z) : value := VArr (tenE l).
+Definition w16 : wrapped := {| w_params := [("x", (false, [Some (annA "k a=k+1" false)]))]; w_ret := None; w_provider := PFree |}.
+Example ex16_value_and_exception_reach_caller :
+  run_call w16 (PSOk [("k", 3%Z)]) [("x", arrE [3;4]%Z)] (BReturn VOther) = (true, CReturned VOther) /\
+  run_call w16 (PSOk [("k", 3%Z)]) [("x", arrE [3;4]%Z)] BRaise = (true, CBodyRaised) /\ w_ret w16 = None.
+Proof. vm_compute. repeat split. Qed.
 Redirect "C16.assumptions.1" Print Assumptions C16_exception_passthrough.
